@@ -41,6 +41,12 @@ for _p in seqcheck.PLAN:
         "technique": "TLA+ spec (Cache.tla) model-checked with TLC + trace validation of real executions as a deterministic fold (CacheTrace.tla)",
     }
 
+for _p, _extra in (("C10", "; concurrent half: LoadRace.tla (an expired, unswept entry under the sweep / a cancelled computation / explicit invalidations: NoDrop, NoStaleInstall) model-checked, gate-scheduled load histories of the real cache judged by LoadHist.tla"),
+                   ("C11", "; asynchronous half: refreshes / stale reads racing writers under the gate scheduler, judged by LoadHist.tla (one result per Refresh, swap before delivery, a reload replaces only the value it was handed, no reload when nothing is due)")):
+    if _p in META:
+        META[_p]["text"] += _extra
+        META[_p]["technique"] += " + TLA+/PlusCal spec (LoadRace.tla) model-checked with TLC and gate-scheduled load histories of the real cache judged by a TLA+ trace spec (LoadHist.tla)"
+
 CHECKS["C14"] = draincheck.run
 META["C14"] = {
     "engine": "drain-replay",
